@@ -9,15 +9,17 @@ from vlib import vbytes, vlist, parse_val
 
 NEED_RG = True
 MANIFEST = dict(
-    text="Coq theorems: Gitignore::matched_stripped returns the LAST line (file order) whose glob matches and whose "
-         "directory-only flag admits the entry, whitelist or ignore accordingly (uses C12's set_eq_members, all line "
-         "lists, all paths); matched_path_or_any_parents = first verdict walking up the parents; nearest ignore file "
-         "first and pruning of ignored directories in the tree walk; add_line's flags (comment, trailing blanks as git "
-         "trims them, negation, anchoring, directory-only, implicit **/ prefix, /** => /**/*) by computation lemmas. "
-         "The equality of one gitignore line with git's documented component-level semantics (Spec/GitSem.v) is "
-         "PARTIAL: stated in full, proved for the slash-free pattern class, tested (extracted GitSem and rg model vs "
-         "real git and real rg on generated repositories) for the rest. Tie to the code: three-way, "
-         "git check-ignore / git ls-files vs rg --files and Gitignore::matched_path_or_any_parents vs the model.",
+    text="Coq theorems: (pattern level) for every pattern of the documented grammar in segment form (components of "
+         "literals, ?, *, classes that cannot match '/'; ** as a whole segment; anchored or not), every path: the regex "
+         "meaning of the tokens ripgrep produces = git's component-wise matching (gitignore_pattern_eq_git); (line "
+         "level) for every line in an executable class (both line readers run, tokens = segment form, flags agree) "
+         "ripgrep's reading = GitSem's; (file level) last matching line wins through the real pipeline (add_line, glob "
+         "set, reverse scan) = git's file verdict; (tree level, PARTIAL) walker model visited = git_visited for any ignore "
+         "files at any levels whose lines are in the class, composing last-match-wins, directory-only, nearest file "
+         "first and pruning. Missing lemma (stated, tested on every generated line): every line of the documented "
+         "grammar is in the class (its glob-parser half is proved in C12). Known findings refuted by witness. Tie to "
+         "the code: three-way, git ls-files vs rg --files and ignore::WalkBuilder and "
+         "Gitignore::matched_path_or_any_parents vs the model; extracted GitSem vs real git.",
     note="trusted: git 2.39 as executable specification; Coq kernel, extraction, OCaml driver, Rust harness; C12's trusted "
          "base (regex-automata reading of the regex text); known findings: bracket classes that can match '/', "
          "unescaped braces (alternation is a globset extension)",
@@ -350,39 +352,75 @@ def repo_features(repo):
 
 
 def in_documented_grammar(line):
-    """the generator's documented grammar: no glued **, no empty class range, ASCII, no tabs ..."""
+    """the documented grammar the theorems are about: comments, blanks, optional `!`, optional leading `/`,
+    components of literals (escaped or not), `*`, `?`, bracket classes, `**` only as a whole component and never
+    twice in a row, optional trailing `/`, trailing blanks.  Excluded (git documents no meaning): tabs, `***`,
+    `//`, an empty pattern body (`!`, `/`, `!/`), an unclosed `[`, a backslash inside a class or directly before
+    a `/` or dangling at the end, a reversed class range, `**` glued to other characters."""
+    if line.startswith(b"#"):
+        return True
     if b"\t" in line or b"***" in line or b"//" in line:
         return False
-    # classes: no backslash inside (git quotes there, globset does not), no reversed range
+    # git's own trimming of unescaped trailing blanks
+    body = line
     i = 0
-    while i < len(line):
-        c = line[i:i + 1]
+    last_space = None
+    while i < len(body):
+        c = body[i:i + 1]
+        if c == b" ":
+            if last_space is None:
+                last_space = i
+        elif c == b"\\":
+            if i + 1 >= len(body):
+                return False                       # dangling backslash
+            i += 1
+            last_space = None
+        else:
+            last_space = None
+        i += 1
+    if last_space is not None:
+        body = body[:last_space]
+    if body == b"":
+        return True                                # blank line
+    if body.startswith(b"!"):
+        body = body[1:]
+    if body.rstrip(b"/") == b"" or body.lstrip(b"/") == b"":
+        return False                               # empty pattern body
+    # scan: escapes, classes
+    i = 0
+    while i < len(body):
+        c = body[i:i + 1]
         if c == b"\\":
+            if body[i + 1:i + 2] == b"/":
+                return False                       # escaped separator
             i += 2
             continue
         if c == b"[":
             j = i + 1
-            if line[j:j + 1] in (b"!", b"^"):
+            if body[j:j + 1] in (b"!", b"^"):
                 j += 1
-            if line[j:j + 1] == b"]":
+            if body[j:j + 1] == b"]":
                 j += 1
-            k = line.find(b"]", j)
-            if k >= 0:
-                body = line[i + 1:k]
-                if b"\\" in body:
+            k = body.find(b"]", j)
+            if k < 0:
+                return False                       # unclosed class
+            cls = body[i + 1:k]
+            if b"\\" in cls or b"[" in cls:
+                return False
+            for t in range(len(cls) - 2):
+                if cls[t + 1:t + 2] == b"-" and cls[t] > cls[t + 2]:
                     return False
-                for t in range(len(body) - 2):
-                    if body[t + 1:t + 2] == b"-" and body[t] > body[t + 2]:
-                        return False
-                i = k + 1
-                continue
+            i = k + 1
+            continue
         i += 1
-    s = line
-    # ** must be a whole component
-    parts = s.lstrip(b"!").split(b"/")
+    parts = body.strip(b"/").split(b"/") if b"/" in body.strip(b"/") or body.startswith(b"/") else [body.rstrip(b"/")]
+    prev_dstar = False
     for p in parts:
         if b"**" in p and p != b"**":
             return False
+        if p == b"**" and prev_dstar:
+            return False
+        prev_dstar = (p == b"**")
     return True
 
 
@@ -530,6 +568,25 @@ def check_one_file(ctx, repos):
                           dict(kind=402, repo=show(r), line=line, model=m, code=c), nfi=True)
 
 
+def check_line_class(ctx, cases):
+    """kind 404: the executable class of the line-level theorem (gitignore_line_eq_git) must contain every line of
+    the documented grammar the generators produce; a documented line outside the class means the theorem does not
+    speak about it (reported, without failing input: it is a gap of the proof, not of ripgrep)"""
+    cases = sorted(set(cases))
+    lines = [vlist(["1" if ci else "0", vbytes(l)]) for ci, l in cases]
+    mo = vlib.model(404, lines)
+    st = ctx.cov.setdefault("line_class", dict(documented_in_class=0, documented_outside_class=0,
+                                                 undocumented_in_class=0, undocumented_outside_class=0))
+    for (ci, l), line, m in zip(cases, lines, mo):
+        doc = in_documented_grammar(l) and not line_features(l) and not ci_class_quirk(dict(ci=ci, ignores={b"": [l]}))
+        key = ("documented" if doc else "undocumented") + ("_in_class" if m == "1" else "_outside_class")
+        st[key] += 1
+        if doc and m != "1":
+            viol(ctx, "a line of the documented grammar is outside the class of theorem gitignore_line_eq_git "
+                      "(proof coverage gap) [line=%r ci=%s]" % (l.decode("latin1"), ci),
+                 dict(kind=404, ci=ci, text=l.decode("latin1"), line=line, model=m), nfi=True)
+
+
 def check_add_line(ctx, cases):
     lines = [vlist(["1" if ci else "0", vbytes(l)]) for ci, l in cases]
     mo = vlib.model(403, lines)
@@ -596,7 +653,9 @@ def run(ctx):
     check_repos(ctx, repos)
     check_one_file(ctx, CORPUS + KNOWN_CORPUS + repos)
     names = [x for x in NAME_POOL]
-    check_add_line(ctx, [(rng.random() < 0.2, gen_line(rng, names, rng.random() < 0.3)) for _ in range(ctx.count(600))])
+    al = [(rng.random() < 0.2, gen_line(rng, names, rng.random() < 0.3)) for _ in range(ctx.count(600))]
+    check_add_line(ctx, al)
+    check_line_class(ctx, al + [(r["ci"], l) for r in CORPUS + repos for ls in r["ignores"].values() for l in ls])
     flush_pending(ctx)
     ctx.assumptions += [
         "git 2.39 (ls-files --others --exclude-standard, check-ignore) is the executable specification",
@@ -608,6 +667,8 @@ def replay(ctx, data):
     r = data["replay"]
     if r.get("kind") == 403:
         check_add_line(ctx, [(r["ci"], r["text"].encode("latin1"))])
+    elif r.get("kind") == 404:
+        check_line_class(ctx, [(r["ci"], r["text"].encode("latin1"))])
     elif "repo" in r:
         check_repos(ctx, [unshow(r["repo"])])
         check_one_file(ctx, [unshow(r["repo"])])
